@@ -41,7 +41,7 @@ Fixpoint number_loop (cs : str) (s : str) (digits : N) (decimal expf : bool) {st
               let expf1 := if is_e then true else expf in
               if is_digit pk then number_loop rest s1 digits2 decimal1 expf1
               else if negb expf1 && negb decimal1 && (pk =? 46) then number_loop rest s1 digits2 decimal1 expf1
-              else if (negb expf1 && (pk =? 69)) || (pk =? 101) || (pk =? 68) || (pk =? 100)
+              else if negb expf1 && ((pk =? 69) || (pk =? 101) || (pk =? 68) || (pk =? 100))
                    then number_loop rest s1 digits2 decimal1 expf1
               else if (pk =? 33) || (pk =? 35) || (pk =? 37) then number_loop rest s1 digits2 decimal1 expf1
               else finish s1 digits2 decimal1 expf1 rest
